@@ -13,7 +13,7 @@ RULE = ('configs: generated mapping files (1..6 custom protobuf fields varint/st
         'field == model under the compiled abstract configuration, and the JSON and text BYTES of every message == Model/Format.v under the '
         'same formatter section (fields, renames, renderers on custom fields and columns), and the partition key bytes == Model/Format.v msg_key '
         '(FNV-1 32 over the %v text of the key fields: columns of every kind, custom fields); GetBytes: '
-        'all 1-byte buffers exhaustively, 2- and 3-byte buffers over a bit basis plus random ones, x offsets 0..24 x lengths 0..24 x shift; doc examples: every ```yaml mapping file shown in docs/mapping.md and '
+        'all 1-byte buffers exhaustively, 2- and 3-byte buffers over a bit basis plus random ones, x offsets 0..24 x lengths 0..24 x shift, and five 20-byte buffers x offsets 0..40 x every length 1..128 x shift; doc examples: every ```yaml mapping file shown in docs/mapping.md and '
         'cmd/goflow2/mapping.yaml (re-read from the repository on every run, translated to the abstract configuration by yaml_to_toks) '
         'must load and behave like the model compiled from its own content; edge files: 20 hand-written mapping files at the edges of what the loader accepts (unknown renderers / fields / keys, unmappable custom types, Go names, virtual fields, duplicate indices ...): accepted or rejected as the model does. '
         'binary: cmd/goflow2 built from the working tree and run with generated mapping files (-mapping, json, file transport, one worker): every line of its output file == format_json of the model for the datagrams sent to its socket. '
@@ -449,6 +449,14 @@ def getbytes_lines(rng):
                     continue
                 for sh in (0, 1):
                     lines.append('getbytes =%s #%x #%x #%x' % (b.hex(), off + 1000, ln + 1000, sh))
+    # wide extractions: 20-byte buffers (random, all ones, alternating) x every bit offset 0..40 x EVERY documented bit length
+    # 1..128 x both alignments -- results of 1..16 bytes assembled from up to 17 source bytes
+    wide = [bytes(rng.randrange(256) for _ in range(20)) for _ in range(3)] + [bytes([255] * 20), bytes([0xa5, 0x5a] * 10)]
+    for b in wide:
+        for off in range(0, 41):
+            for ln in range(1, 129):
+                for sh in (0, 1):
+                    lines.append('getbytes =%s #%x #%x #%x' % (b.hex(), off + 1000, ln + 1000, sh))
     return lines
 
 
@@ -537,7 +545,11 @@ def run(chk):
     binary_part(chk, rng, hists)
     # GetBytes
     gb = getbytes_lines(rng)
-    bad = run_scope_b(chk, me, gb, 'getbytes', {}, timeout=120.0)
-    chk.exhaustive.append('GetBytes: all 1-byte buffers x offsets 0..24 x lengths 0..24 x shift (exhaustive); 2-/3-byte buffers over a bit basis and random values: %d calls' % len(gb))
-    resolve_scope_b(chk, me, bad, 'getbytes', {}, None, None)
+    bad = run_scope_b(chk, me, gb, 'getbytes', {}, timeout=240.0)
+    chk.exhaustive.append('GetBytes: all 1-byte buffers x offsets 0..24 x lengths 0..24 x shift (exhaustive); 2-/3-byte buffers over a bit basis and random values; five 20-byte buffers x offsets 0..40 x lengths 1..128 x shift: %d calls' % len(gb))
+    # the model's get_bytes IS the bit-level specification for every buffer, offset and length (c14_getbytes_exact): a
+    # disagreement on a GetBytes call is a failing input of the property itself
+    for a, o, m in bad:
+        chk.record('scopeA', dict(concrete=True, input=a, impl=o, expected=m,
+                   what='GetBytes returns other bits than the bit range the mapping configures (Spec/BitNum.v, c14_getbytes_exact)'), {})
     return chk.finish(me)
